@@ -14,6 +14,8 @@ CLAIM = (
     "property lists in that scope - types (class/struct/interface/enum names), enumeration literals, properties (incl. getter/setter "
     "names where the target emits them) and methods; (4) jsonschema's Definitions.update/update_for results are consumed and xsd keeps "
     "its observed-definitions check."
+    " SKIPS: the loops of the functions in scope have no more `continue`, `break` or in-loop `return` statements than the reference "
+    "read on the unchanged tree (baselines/skips.json): a new skip means elements that were handled are no longer handled."
 )
 NOTE = (
     "Trusted base: classification of naming functions into entity kinds by their names. Not decided: absence of collisions among derived "
@@ -109,6 +111,13 @@ def run(ctx) -> None:
         ctx.ok("DEFS", xg, xg.node, what="xsd._generate tests new definitions against observed_definitions")
     else:
         ctx.fail("DEFS", xg, xg.node, "xsd._generate no longer detects duplicate definitions", construct="xsd observed_definitions")
+    ctx.rule("SKIPS", "the loops of the functions in scope have no more continue/break/return-in-loop statements than the reference read on the unchanged tree", floor=6)
+    from ..rules import skips as _skips
+    _base = _skips.load_baseline()
+    for _m in ctx.p.modules.values():
+        if _m.name.endswith(".lib._generate_types"):
+            for _f in _m.functions.values():
+                _skips.check_skips(ctx, _f, "SKIPS", _base)
 
 
 def _kind_of(fn_name: str):
